@@ -2465,10 +2465,12 @@ impl<'input, T: Input> Scanner<'input, T> {
                         "illegal placement of ':' indicator",
                     ));
                 }
-                self.insert_token(
-                    sk.token_number - self.tokens_parsed,
-                    Token(Span::empty(sk.mark), TokenType::FlowMappingStart),
-                );
+                if starts_implicit_flow_mapping {
+                    self.insert_token(
+                        sk.token_number - self.tokens_parsed,
+                        Token(Span::empty(sk.mark), TokenType::FlowMappingStart),
+                    );
+                }
             }
 
             // Add the BLOCK-MAPPING-START token if needed.
@@ -2483,7 +2485,7 @@ impl<'input, T: Input> Scanner<'input, T> {
             self.simple_keys.last_mut().unwrap().possible = false;
             self.disallow_simple_key();
         } else {
-            if is_implicit_flow_mapping {
+            if starts_implicit_flow_mapping {
                 self.tokens
                     .push_back(Token(Span::empty(start_mark), TokenType::FlowMappingStart));
             }
